@@ -15,7 +15,10 @@ from mirsym import strmodels
 # payloads can be inspected field by field.
 @reg('serde_json::to_value', 'to_value')
 def _to_value(I, a, ci, dt):
-    return Ok(Opaque('json', a[0]))
+    v = a[0]
+    while isinstance(v, Ref):        # serialisation reads the value now: snapshot it
+        v = I.load(v)
+    return Ok(Opaque('json', v))
 
 
 def S(I, b):
